@@ -270,6 +270,17 @@ def check(ctx, lib, c):
         # non-validating decode of a valid encoding gives the same point
         ok3, img3 = lib_decode(lib, g, data, comp, False, c["prefill"])
         expect(ok3 and c05.b_aff(lib, g, img3) == P, sig + "/unchecked-differs", lambda: "bytes=%s" % data.hex())
+        # related calls directly afterwards: the negated point (same x, so the same bytes up to the sign bit / the y half) is encoded,
+        # judged by the reference decoder, decoded by the library, and then the first bytes once more
+        if P is not None:
+            nP = C.neg(P, c05.KK(g))
+            e2, _ = lib_encode(lib, g, nP, comp)
+            okr, Pr = ref_decode(lib, g, e2, comp)
+            expect(okr and Pr == nP, sig + "/after-related-call/encode-negated", lambda: "encode(P) then encode(-P): %s does not describe -P" % e2.hex())
+            ok5, img5 = lib_decode(lib, g, e2, comp, True, c["prefill"])
+            expect(ok5 and c05.b_aff(lib, g, img5) == nP, sig + "/after-related-call/decode-negated", lambda: "bytes=%s then %s" % (data.hex(), e2.hex()))
+            ok6, img6 = lib_decode(lib, g, data, comp, True, c["prefill"])
+            expect(ok6 and c05.b_aff(lib, g, img6) == P, sig + "/after-related-call/repeat", lambda: "bytes=%s" % data.hex())
     else:
         why = "non-canonical" if label in ("junk_top", "plus_q", "ge_q") else label
         expect(not ok, "%s_unmarshal/%s/accepted-invalid/%s" % (gs, "compressed" if comp else "uncompressed", why),
